@@ -4,9 +4,9 @@ package vsched
 
 import (
 	"encoding/json"
-	"regexp"
 	"fmt"
 	"os"
+	"regexp"
 	"runtime"
 	"strconv"
 	"strings"
@@ -45,6 +45,8 @@ type Trace struct {
 	// keyed by the engine's variable name (nd!<name>!<site>, sel!..., env!...)
 	Inputs     map[string][]int64 `json:"inputs,omitempty"`
 	EnvCancels []EnvCancel        `json:"env_cancels,omitempty"`
+	// Files: source files of the functions the model executed (instrumented for the replay)
+	Files []string `json:"files,omitempty"`
 }
 
 type thr struct {
@@ -59,6 +61,67 @@ type thr struct {
 	done     bool
 	parent   *thr
 	site     string
+	// fire: for timer callbacks (AfterFunc): makes the goroutine exist; reg is closed once it
+	// has registered itself
+	fire   func()
+	reg    chan struct{}
+	yields int
+}
+
+// wakeUp grants the thread (starting the goroutine of a timer callback first).
+func (t *thr) wakeUp() {
+	if t.fire != nil {
+		f := t.fire
+		t.fire = nil
+		f()
+		select {
+		case <-t.reg:
+		case <-time.After(2 * time.Second):
+			logf("timer callback of T%d did not start", t.id)
+		}
+	}
+	t.wake <- struct{}{}
+}
+
+// AfterFunc is the instrumented form of time.AfterFunc: the timer never expires by itself
+// during a replay; the controller fires it when the trace starts the callback's thread.
+func AfterFunc(site string, d time.Duration, f func()) *time.Timer {
+	if !active {
+		return time.AfterFunc(d, f)
+	}
+	parent := self()
+	known := false
+	for _, tt := range trace.Threads {
+		if sameSite(tt.Site, site) {
+			known = true
+		}
+	}
+	if !known {
+		logf("unmodelled timer created at %s", site)
+		return time.AfterFunc(d, f)
+	}
+	child := &thr{id: -1, wake: make(chan struct{}), parent: parent, site: site, reg: make(chan struct{})}
+	var tm *time.Timer
+	tm = time.AfterFunc(1000*time.Hour, func() {
+		mu.Lock()
+		byGID[goid()] = child
+		mu.Unlock()
+		close(child.reg)
+		<-child.wake
+		defer func() {
+			if r := recover(); r != nil {
+				Fail(fmt.Sprintf("panic in T%d: %v", child.id, r))
+			}
+			child.done = true
+			events <- event{child, "exit", ""}
+		}()
+		f()
+	})
+	child.fire = func() { tm.Reset(0) }
+	mu.Lock()
+	unbound = append(unbound, child)
+	mu.Unlock()
+	return tm
 }
 
 type event struct {
@@ -115,6 +178,14 @@ func Yield(id string) {
 	t := self()
 	if t == nil {
 		return
+	}
+	t.yields++
+	if t.yields > 60000 {
+		// a goroutine that passes this many statements inside one harness run is spinning
+		Fail(fmt.Sprintf("livelock: T%d keeps executing without blocking (at %s)", t.id, id))
+		t.done = true
+		events <- event{t, "exit", ""}
+		select {}
 	}
 	if t.passOnce == id {
 		t.passOnce = ""
@@ -321,7 +392,7 @@ func Run(tracePath string, entry func()) Result {
 			pt.curStmt = ""
 			pt.started = true
 			logf("step %d: running the local prefix of T%d up to %s", k, par, first)
-			pt.wake <- struct{}{}
+			pt.wakeUp()
 			select {
 			case ev := <-events:
 				logf("   T%d %s %s", ev.t.id, ev.kind, ev.at)
@@ -377,7 +448,7 @@ func Run(tracePath string, entry func()) Result {
 		t.parkedAt = ""
 		fireEnv(st.Step)
 		logf("step %d: grant T%d at %s (next stop %s)", k, st.Th, st.Stmt, next)
-		t.wake <- struct{}{}
+		t.wakeUp()
 		select {
 		case ev := <-events:
 			if ev.t != t {
